@@ -418,6 +418,7 @@ def _c10(tier, rng):
     yield ("v3 well-formed vectors (encode, String, re-decode)", S.accepted3_ops(rng, n), False)
     yield ("v2 canonical vectors (encode = input, String, re-decode)", S.accepted2_ops(rng, n), False)
     yield ("v3 edit neighbourhood (accepted members)", S.parser3_ops(rng, 6 if tier == "quick" else 60, False, nrandom=200), False)
+    yield ("every v3 base vector at the temporal and environmental decoders (nothing optional written)", S.base3_all(kind="D3", levels=(1, 2)), True)
 
 
 _reg(DecodeProp(
@@ -1112,6 +1113,12 @@ class ExportProp(SimpleProp):
             mode = modes[i % len(modes)] if i < 4 * len(modes) else rng.choice(modes)
             if mode.startswith("fail:") and rng.chance(1, 2):
                 mode = "fail:%d" % rng.below(max(1, len(t)))
+            if mode.startswith("fail:"):
+                # the failure after a prefix that may itself be a complete template, with different error values
+                if rng.chance(1, 3) and t:
+                    cut = [k for k in range(len(t) + 1) if t[:k].count("{{") == t[:k].count("}}")]
+                    mode = "fail:%d" % rng.choice(cut)
+                mode += ":" + rng.choice(["plain", "wrapeof", "patheof", "unexpected", "closed"])
             ops.append("X3 %s %s %s %s %s" % (L, rng.choice(["en", "ja"]), core.hx(rng.choice(vecs)), mode, core.hx(t)))
         return ops
 
